@@ -1326,4 +1326,14 @@ theorem model_satisfies_spec (md : Mode) (history : List MOp) :
   obtain ⟨s, h, _⟩ := run_ok md history rel_init
   exact ⟨s, h⟩
 
+/-- the verdict as a Boolean (for `example`s) -/
+def accepts (md : Mode) (obs : List Obs) : Bool :=
+  match specRun md {} obs with
+  | .ok _ => true
+  | .error _ => false
+
+theorem model_accepted (md : Mode) (history : List MOp) : accepts md (modelTrace {} history) = true := by
+  obtain ⟨s, h⟩ := model_satisfies_spec md history
+  simp only [accepts, h]
+
 end SockModel.Locks.Spec
